@@ -8,6 +8,7 @@ import Mkdb.Driver.Exec
 import Mkdb.Driver.Db
 import Mkdb.Driver.Sess
 import Mkdb.Driver.Lock
+import Mkdb.Driver.Wal
 open Mkdb.Driver
 
 def main (args : List String) : IO UInt32 := do
@@ -34,4 +35,6 @@ def main (args : List String) : IO UInt32 := do
   | ["judge", "sess"] => judgeLoop stdin stdout ({} : Sess.J) Sess.judgeLine; return 0
   | ["model", "lock"] => modelLoop stdin stdout () Lock.stepLine; return 0
   | ["judge", "lock"] => judgeLoop stdin stdout "?" Lock.judgeLine; return 0
+  | ["model", "wal"] => modelLoop stdin stdout () Wal.stepLine; return 0
+  | ["judge", "wal"] => judgeLoop stdin stdout ({} : Wal.J) Wal.judgeLine; return 0
   | _ => IO.eprintln "usage: mkdbdrv model|judge <proto>"; return 2
